@@ -19,6 +19,7 @@ package main
 // calls they are: `harness replay <PID> <file>`), which is what exposes state created by the first call of a process.
 
 import (
+	"crypto/sha1"
 	"encoding/hex"
 	"encoding/json"
 	"fmt"
@@ -65,6 +66,7 @@ const histPrefix = "a-history-of-calls"
 type histStepResult struct {
 	Step     string `json:"step"`
 	Observed string `json:"observed"`
+	Digest   string `json:"digest"`          // everything the call returned (compared between a cold first call and a warm call)
 	Class    string `json:"class,omitempty"` // "" = this step satisfies what is required of it
 	What     string `json:"what,omitempty"`
 	Required string `json:"required,omitempty"`
@@ -176,7 +178,22 @@ func runCodecHistory(steps []string) []histStepResult {
 			})
 		case "validate":
 			rw.dc, rw.text = coding.DataCoding(num(f[1])), string(arg(2))
-			guard(func() { rw.ok = rw.dc.Validate(rw.text) })
+			rw.pan, _ = guard(func() { rw.ok = rw.dc.Validate(rw.text) })
+		case "splitter": // splitter:<dc>:<limit>:<text>
+			rw.dc, rw.text = coding.DataCoding(num(f[1])), string(arg(3))
+			rw.pan, _ = guard(func() {
+				sp := rw.dc.Splitter()
+				rw.ok = sp != nil
+				if rw.ok {
+					rw.back = strconv.Itoa(sp.Len(rw.text))
+					for _, x := range rw.text {
+						if sp(x) > 8*num(f[2]) {
+							return // Split does not terminate on a character wider than the limit
+						}
+					}
+					rw.pieces = sp.Split(rw.text, num(f[2]))
+				}
+			})
 		case "compose":
 			rw.text = string(arg(1))
 			rw.pan, _ = guard(func() {
@@ -313,6 +330,19 @@ func runCodecHistory(steps []string) []histStepResult {
 			}
 		case "validate":
 			res.Observed = fmt.Sprintf("%v", rw.ok)
+		case "splitter":
+			res.Observed = fmt.Sprintf("splitter=%v Len=%s segments=%d", rw.ok, rw.back, len(rw.pieces))
+			if strings.Join(rw.pieces, "") != rw.text && len(rw.pieces) > 0 {
+				fail("splitter/"+name+"/segments-do-not-join-to-text", "the segments do not join to the text", "the text")
+			}
+		}
+		{
+			h := sha1.New()
+			fmt.Fprintf(h, "%v|%v|%d|%x|%q|%v|%d|%q|", rw.ok, rw.pan, byte(rw.dc), rw.octets, rw.back, rw.backOK, byte(rw.stored), rw.pieces)
+			for _, p := range rw.parts {
+				fmt.Fprintf(h, "%d %v %x|", byte(p.DataCoding), p.UDHeader, p.Message)
+			}
+			res.Digest = hex.EncodeToString(h.Sum(nil)[:8])
 		}
 		out[i] = res
 	}
@@ -604,4 +634,67 @@ func runColdHistory(r *Run, pid string, idx int, steps []string) ([]histStepResu
 		}
 	}
 	return nil, last
+}
+
+// coldFirstCallTests: the package-level tables (alphabetMap, encodingMap, splitterMap, the GSM 7-bit tables, x/text's tables)
+// are built at init time or on first use.  For every coding and every entry point - Encoding().NewEncoder(), Validate,
+// Splitter(), and BestCoding / BestSafeCoding / Compose / the multipart pipeline on a text of every repertoire - a child process
+// makes that call as its VERY FIRST library call; the answer must be the one the same call gives here, in a process that has
+// made thousands of calls (and each call must satisfy what is required of it alone).
+func coldFirstCallTests(r *Run, pid string) {
+	pools := histPools()
+	var hs [][]string
+	dcsAll := append(append([]coding.DataCoding{}, closureBases...), 0xF1, 0xE0, 0xF5)
+	for _, dc := range dcsAll {
+		p := pools[0]
+		for _, q := range pools {
+			if b, ok := encBaseOfQuick(dc); ok && (q.dc == b || (b == coding.ASCIICoding && q.dc == coding.Latin1Coding)) {
+				p = q
+			}
+		}
+		t := hexText(p.text(r, 12+r.Rng.Intn(30)))
+		d := strconv.Itoa(int(byte(dc)))
+		hs = append(hs, []string{"enc:" + d + ":" + t}, []string{"validate:" + d + ":" + t}, []string{"splitter:" + d + ":9:" + t})
+	}
+	for _, p := range pools {
+		t := hexText(p.text(r, 10+r.Rng.Intn(60)))
+		long := hexText(p.text(r, 150+r.Rng.Intn(100)))
+		hs = append(hs, []string{"best:" + t}, []string{"bestsafe:" + t}, []string{"compose:" + t}, []string{"multi:best:" + strconv.Itoa(r.Rng.Intn(65536)) + ":" + long})
+	}
+	hs = append(hs, []string{"best:"}, []string{"compose:"}, []string{"dec:0:" + hex.EncodeToString(packSeptetsRef([]byte("hello")))})
+	type cr struct {
+		res []histStepResult
+		err string
+	}
+	results := make([]cr, len(hs))
+	sem := make(chan struct{}, 6)
+	done := make(chan int, len(hs))
+	for i := range hs {
+		go func(i int) {
+			sem <- struct{}{}
+			defer func() { <-sem; done <- i }()
+			results[i].res, results[i].err = runColdHistory(r, pid, 2000+i, hs[i])
+		}(i)
+	}
+	for range hs {
+		<-done
+	}
+	for i, h := range hs {
+		in := "codec-history " + strings.Join(h, " ")
+		r.Count("first call "+in, true, "first library call of a fresh process: "+strings.SplitN(h[0], ":", 2)[0])
+		if results[i].err != "" {
+			r.Notes = append(r.Notes, "first-call child could not be run: "+results[i].err)
+			continue
+		}
+		warm := runCodecHistory(h)
+		reportCodecHistory(r, histPrefix, h, results[i].res, "cold (first call of a fresh process)", nil)
+		for k := range h {
+			if results[i].res[k].Class == "" && warm[k].Class == "" && results[i].res[k].Digest != warm[k].Digest {
+				r.Fail(histPrefix+"/first-call-differs-from-a-later-call/"+strings.SplitN(h[k], ":", 2)[0],
+					"a call gives another answer as the first library call of a fresh process than later in a process", in,
+					"first call: "+results[i].res[k].Observed, "as in a warm process: "+warm[k].Observed)
+				break
+			}
+		}
+	}
 }
